@@ -23,6 +23,10 @@ NONDET = ('std::time::SystemTime::now', 'std::time::Instant::now', 'chrono::', '
           'std::collections::hash::map::HashMap::iter_mut', 'std::collections::hash::map::HashMap::values_mut',
           'std::collections::hash::map::HashMap::into_keys', 'std::collections::hash::map::HashMap::into_values',
           'tokio::time::Instant::now')
+# process-wide memo: what the first call computed is what every later call gets, so the archive written for one set of options
+# depends on what the process did before (two archives with different levels from one service)
+PROCESS_STATE = ('std::sync::once_lock::OnceLock', 'std::sync::lazy_lock::LazyLock', 'std::sync::once::Once::call_once', 'once_cell::', 'lazy_static::',
+                 'std::thread::local::LocalKey', 'core::cell::once::OnceCell', 'std::sync::poison::once::Once::call_once')
 
 
 def owner_fn(q):
@@ -176,6 +180,10 @@ def run(facts, cg):
         finding('R-WHO(ordered-combinators)', '-', 'floor', 'expected 2 writers with at least one buffered() stage each (found %d writers, %d stages): cannot decide' % (len(wb), len(comb['buffered'])))
     nd = []
     dict_builders = r_who.descriptor_builders(facts, adt='bitar::chunk_dictionary::ChunkDictionary')
+    # (the functions that assemble the dictionary - metadata, parameters - are writers too)
+    for u in r_who.combinators(facts, cg, [d_ for d_ in dict_builders if d_ not in wb])['unordered']:
+        finding('R-WHO(ordered-combinators)', owner_fn(u['in']), 'unordered:' + u['api'].split('::')[-1], 'completion-order collection %s in a function that assembles '
+                'the archive dictionary (%s): what is recorded would depend on scheduling' % (u['api'], u['at']))
     for w in sorted(set(wb) | set(dict_builders)):
         fn = owner_fn(w)
         for bid in sorted(x for x in facts.bodies if x == fn or x.startswith(fn + '::')):
@@ -187,7 +195,23 @@ def run(facts, cg):
                     if q.startswith(NONDET) or gq.startswith(NONDET):
                         nd.append({'api': q, 'in': b.q, 'at': t['loc']})
                         finding('R-WHO(nondeterminism)', fn, 'source:' + q.split('::')[-1], 'nondeterministic source %s used inside an archive writer at %s' % (q, t['loc']))
-    instances.append({'rule': 'R-WHO(nondeterminism)', 'writers': [owner_fn(w) for w in wb], 'sources_found': nd})
+    # ... and in the library code the writers reach (hashing, compression, the header encoder)
+    wroots = sorted({owner_fn(w) for w in set(wb) | set(dict_builders)})
+    reach_w = cg.reachable([r_ for r_ in wroots if r_ in facts.bodies])
+    n_scanned = 0
+    for bid in sorted(reach_w):
+        b = facts.bodies.get(bid)
+        if b is None or b.crate not in ('bita', 'bitar') or b.generated:
+            continue
+        n_scanned += 1
+        for bi, t in b.calls():
+            if 'q' in t['callee']:
+                q = callee_q(t)
+                if q.startswith(PROCESS_STATE) or t['callee']['q'].startswith(PROCESS_STATE):
+                    nd.append({'api': q, 'in': b.q, 'at': t['loc']})
+                    finding('R-WHO(nondeterminism)', b.q, 'process-state:' + q.split('::')[-1], 'process-wide state (%s) on the way of an archive writer at %s: what is '
+                            'written depends on what this process did before, not only on the input and the options' % (q, t['loc']))
+    instances.append({'rule': 'R-WHO(nondeterminism)', 'writers': [owner_fn(w) for w in wb], 'sources_found': nd, 'functions_reached_from_writers': n_scanned})
     # metadata container type
     for adt, a in facts.adts.items():
         if adt == 'bitar::chunk_dictionary::ChunkDictionary':
